@@ -388,6 +388,10 @@ add("C07", "fixed", "namespace-exceeds-limit:refused-value-kept", "RenderContext
     "the render went on and completed holding (and printing) more than local_namespace_limit allows",
     [{"source": "{% assign a = big %}[{{ a | size }}]{% assign b = 'x' %}", "partials": {}, "data": V.enc({"big": "x" * 300}), "async": False}], "771239d")
 
+add("C04", "fixed", "reparse-error:raw-body-ending-in-brace", "a raw body that ends in '{' (no delimiter inside it) was serialised without its raw wrapper and fused with the markup or text after it: "
+    "'{% raw %}a{{% endraw %}{{ x }}' -> 'a{{{ x }}' (does not parse), '{% raw %}{{% endraw %}% assign v = 1 %}' -> a live assign tag",
+    [c04("{% raw %}a{{% endraw %}{{ a }}"), c04("{% raw %}{{% endraw %}% assign v = 1 %}[{{ v }}]"), c04("{% raw %}{{% endraw %}# c #}")], "ee3cc60")
+
 if __name__ == "__main__":
     # further entries are appended by tools/mkfindings.py from triaged replay files and kept in findings_extra.json
     extra_path = os.path.join(VERIF, "tools", "findings_extra.json")
